@@ -332,6 +332,9 @@ def r7(rr, repo):
                 sel.append((lp, kname, st, st.test.operand, st.orelse))      # the same decision written the other way round
     rr.floor('tests that pick the lists kept numeric in the facet builder', len(sel), 1, mod, fn)
     for lp, kname, st, test, numeric in sel:
+        flipped = False
+        while isinstance(test, ast.UnaryOp) and isinstance(test.op, ast.Not):      # `if not (..): <numeric>`: the numeric branch is taken when the test FAILS
+            test, flipped = test.operand, not flipped
         # names derived from the key in this loop: name -> (method, args) of the call on the key that produced it
         derived = {}
         for a in ast.walk(lp):
@@ -358,7 +361,13 @@ def r7(rr, repo):
             sufs = [q.const_str(c.args[0]) and c.args[0].value for c in direct if c.args]
             ok = all(isinstance(x, str) for x in sufs) and any('_histogram__buckets'.endswith(x) for x in sufs) and any('_histogram__counts'.endswith(x) for x in sufs) and \
                 all('_histogram__buckets'.endswith(x) or '_histogram__counts'.endswith(x) for x in sufs)
-            verdict = True if ok else None
+            # the suffix tests select the numeric branch in the positive sense, and either of them is enough (a key ends in ONE of the two)
+            shape_ok = (isinstance(test, ast.Call) and len(direct) == 1) or (isinstance(test, ast.BoolOp) and isinstance(test.op, ast.Or) and all(isinstance(v, ast.Call) for v in test.values))
+            if ok and (flipped or not shape_ok):
+                verdict = False
+                wit = f'{wit}; the suffix tests do not select the numeric branch ({"negated" if flipped else "combined with `and` / something else"})'
+            else:
+                verdict = True if ok else None
             wit = f'{wit}; suffixes tested: {sufs}'
         elif last_cut and not direct:
             verdict = True
@@ -367,7 +376,9 @@ def r7(rr, repo):
             rr.unresolved('how the facet builder tells histogram lists from other lists was not recognised', mod, st, witness=wit, key='histogram-lists-by-suffix')
         else:
             rr.ob("histogram bounds and counts are recognised by the end of the flattened key, for every metric name", verdict, mod, st, witness=wit, key='histogram-lists-by-suffix')
-        keep = [c for b in numeric for c in ast.walk(b) if isinstance(c, ast.IfExp) and U(c.body).startswith('float(') and 'isinstance' in U(c.test) and 'int' in U(c.test) and 'float' in U(c.test)]
+        keep = [c for b in numeric for c in ast.walk(b) if isinstance(c, ast.IfExp) and U(c.body).startswith('float(') and isinstance(c.test, ast.Call) and U(c.test.func) == 'isinstance' and 'int' in U(c.test) and 'float' in U(c.test)] + \
+               [c for b in numeric for c in ast.walk(b) if isinstance(c, ast.IfExp) and U(c.orelse).startswith('float(') and isinstance(c.test, ast.UnaryOp) and isinstance(c.test.op, ast.Not) and U(c.test.operand).startswith('isinstance(')
+                and 'int' in U(c.test) and 'float' in U(c.test)]
         rr.ob('in that branch every int / float element stays a number', bool(keep), mod, st, witness=U(numeric[0])[:120], key='histogram-elements-numeric')
 
 
